@@ -6,5 +6,11 @@ import "gonum.org/v1/gonum/internal/verif/vlib"
 func main() {
 	vlib.Main("C19",
 		vlib.Group{Name: "sweep", Gen: genSweep},
+		vlib.Group{Name: "spd", Gen: genSPD},
+		vlib.Group{Name: "linesearch", Gen: genLinesearch},
+		vlib.Group{Name: "sched", Gen: genSched},
+		vlib.Group{Name: "lp-std", Gen: genLPStd},
+		vlib.Group{Name: "lp-family", Gen: genLPFamily},
+		vlib.Group{Name: "lp-convert", Gen: genLPConvert},
 	)
 }
